@@ -678,6 +678,9 @@ MANIFEST = {
                 "is also monitored directly on the real traces.",
         "design_ref": "DESIGN.md section 5, C01; notes/C01.md",
     },
-    "level_note": "see notes/C01.md: which theorems are proved for the repaired scheduler (fixes/C01-*.patch, fixes/C02-lock-order.patch) and what is partial",
+    "level_note": "Theorems hold for the repaired scheduler (fix commits 769ee6347, 27da3f16f, 840d0e442; refuted for the code as found, Sched/Refute.v). "
+                  "Partial: C02 drain clause is proved from the explicit idle configuration, not from 'no step enabled' (C02_quiescent_complete_full is a definition); "
+                  "no termination measure; C11 memory fit is an oracle in the model (monitored with an independent fit computation, not proved). "
+                  "The model-to-code tie is trace conformance on generated schedules (generator-bounded). See notes/C01.md.",
     "technique": "Coq proof (invariants over the reachable states of an LTS) + trace-conformance check against the steered real scheduler",
 }
